@@ -431,6 +431,9 @@ func diffStates(exp, obs *MState) []Diff {
 		}
 		for k := range pk {
 			e, o := pair.e[k], pair.o[k]
+			if pair.area == "frozenprop" && (e == nil || e.Major == nil) && (o == nil || o.Major == nil) {
+				continue // closed without a winning option: whether and how long such a record is kept is not pinned
+			}
 			switch {
 			case e == nil:
 				out = append(out, Diff{Area: pair.area, Key: k, Msg: "unexpected " + propStr(o)})
